@@ -10,6 +10,13 @@ def bat(families, cone, level_text, explanation="", extra_assume=None):
                 level_text=level_text, explanation=explanation,
                 level_note="Trusted: Coq kernel; extraction (ExtrOcamlBasic) and the OCaml reader/monitors; the Go harness (synctest) and its fakes; that sampled scenarios reach the code paths that matter (label coverage is reported). Modelled, not verified: Go runtime (channels, mutexes, sync.Cond, tickers), zero-duration internal steps. No axioms (Print Assumptions: closed under the global context).")
 
+def shr(families, cone, level_text):
+    return dict(engine="shared", test="TestShared", replay_mode="sreplay", families=families, cone=cone,
+                assumptions=["scenarios are sampled; the theorems quantify over all of them",
+                             "virtual time (testing/synctest); the lease store is the harness's fake (a lease excludes others until it expires; the grant instant lies inside the call)"],
+                level_text=level_text,
+                level_note="Trusted: Coq kernel; extraction (ExtrOcamlBasic) and the OCaml replayer/monitors; the Go harness (synctest), its fake lease manager and store. Modelled, not verified: Go runtime, math/rand, the Azure service's lease semantics. Histories in which two goroutines of one instance act in the same virtual instant are reported as inconclusive (their log order is not the order of the atomic steps). No axioms.")
+
 ANY = r"^(loop:.*|other:.*|sample:.*|missing.*|act:.*|unknown:.*)$"
 
 PROPS = {
@@ -52,4 +59,13 @@ PROPS = {
     "C19": bat([("accounting", 200, 4000), ("hold", 150, 3000), ("stale", 150, 3000), ("ticks", 100, 2000)],
                r"^(loop:audit.*|sample:needs|sample:inflight|missing.*|act:.*|unknown:.*)$",
                "Proof (partial, see Props/C19.v)."),
+    "C06": shr([("sh-config", 300, 6000), ("sh-general", 200, 4000), ("sh-reconf", 150, 3000)],
+               r"^(sample:.*|value:.*|unexpected:.*|missing:.*|not-enabled:.*|unknown:.*|hang)$",
+               "Proof: the capacity formula (invariant: always in V2, at settled instants in V1), the upper bound, MaxCapacity, the partition count ceil(shared/factor) with the 500 limit (V1 refuses, V2 caps with an error event), counting of a grant until issue time + lease time. Tie to the code: every recorded history of the real v1/v2 resource (fake lease manager, synctest) is replayed step by step against the extracted model; a model-free monitor recomputes Capacity()/MaxCapacity()/CreatePartitions counts from the events."),
+    "C07": shr([("sh-demand", 300, 6000), ("sh-general", 200, 4000), ("sh-multi", 100, 2000)],
+               r"^(not-enabled:lease|value:.*|unexpected:.*|missing:.*|sample:capacity|unknown:.*|hang)$",
+               "Proof: the guard of every lease request (counted < wanted, partition exists and is not counted), its invariant form over whole executions, wanted = ceil(max 0 (asked - reserved)/factor) set only by GiveMe, no request when demand is within the reserve, timers are never passed and never moved (no renewal). The decay bound follows from these (no new grant after demand falls + every grant ends at issue + lease); the numeric bound is checked by the monitor."),
+    "C17": shr([("sh-life", 300, 6000), ("sh-reconf", 250, 5000)],
+               r"^(value:.*|unexpected:.*|missing:.*|not-enabled:.*|sample:.*|unknown:.*|hang)$",
+               "Proof: Start succeeds only from the right phase and once, provisioning failures leave the resource not started, exactly one shutdown event and no lease request after it, SetReservedCapacity takes effect at once in both getters, SetSharedCapacity is an error without lease manager and otherwise re-provisions keeping the surviving partitions, the lease index in flight is always in range (no panic)."),
 }
